@@ -177,6 +177,45 @@ func (p *Program) funcValues(v ssa.Value, depth int, params bool) []*ssa.Functio
 				}
 				return out
 			}
+			// element of a slice of functions received as a (variadic) parameter: what the
+			// call sites pack into it
+			if prm, ok := a.X.(*ssa.Parameter); ok && params {
+				f := prm.Parent()
+				idx := -1
+				for i, q := range f.Params {
+					if q == prm {
+						idx = i
+					}
+				}
+				var out []*ssa.Function
+				if idx >= 0 {
+					sites := append([]callSite{}, getCallIndex(p).sites[f]...)
+					for _, st := range sites {
+						c, ok := st.instr.(ssa.CallInstruction)
+						if !ok || idx >= len(c.Common().Args) {
+							continue
+						}
+						if sl, ok := c.Common().Args[idx].(*ssa.Slice); ok {
+							if al, ok := sl.X.(*ssa.Alloc); ok {
+								if refs := al.Referrers(); refs != nil {
+									for _, rf := range *refs {
+										if ia, ok := rf.(*ssa.IndexAddr); ok {
+											if irefs := ia.Referrers(); irefs != nil {
+												for _, ir := range *irefs {
+													if s2, ok := ir.(*ssa.Store); ok && s2.Addr == ssa.Value(ia) {
+														out = append(out, p.funcValues(s2.Val, depth+1, params)...)
+													}
+												}
+											}
+										}
+									}
+								}
+							}
+						}
+					}
+				}
+				return out
+			}
 			// element of a package-level slice/array of functions
 			switch base := a.X.(type) {
 			case *ssa.UnOp:
